@@ -3952,6 +3952,13 @@ impl Zeroconf {
         // as `send_dns_outgoing_impl` does, or the packet leaves on whichever
         // interface was used last.
         let pktinfo = &sock.pktinfo;
+        #[cfg(feature = "verif-hooks")]
+        let pktinfo = &verif_daemon::SendShim::new(
+            pktinfo,
+            &intf.name,
+            Some(intf.index),
+            Some(if_addr.ip()),
+        );
         let selected = match if_addr.ip() {
             IpAddr::V4(ipv4) => pktinfo.set_multicast_if_v4(&ipv4),
             IpAddr::V6(_) => pktinfo.set_multicast_if_v6(intf.index),
